@@ -624,25 +624,36 @@ Linear_Expression_Impl<Row>
           continue;
         }
         if (i.index() > j.index()) {
-          i = row.insert(i, j.index(), *j);
-          (*i) *= c2;
-          ++i;
+          // NOTE: `y.row' may be dense, hence `*j' may be zero:
+          // zeroes must not be stored in (a possibly sparse) `row'.
+          if (*j != 0) {
+            i = row.insert(i, j.index(), *j);
+            (*i) *= c2;
+            ++i;
+          }
           ++j;
           continue;
         }
         PPL_ASSERT(i.index() == j.index());
-        (*i) = (*j);
-        (*i) *= c2;
-        ++i;
+        if (*j != 0) {
+          (*i) = (*j);
+          (*i) *= c2;
+          ++i;
+        }
+        else {
+          i = row.reset(i);
+        }
         ++j;
       }
       while (i != i_end && i.index() < end) {
         i = row.reset(i);
       }
       while (j != j_last) {
-        i = row.insert(i, j.index(), *j);
-        (*i) *= c2;
-        // No need to increment i here.
+        if (*j != 0) {
+          i = row.insert(i, j.index(), *j);
+          (*i) *= c2;
+          // No need to increment i here.
+        }
         ++j;
       }
     }
